@@ -1980,6 +1980,10 @@ vinsertpair(VGROUP *vg,  /* IN: vgroup struct */
     /* clear error stack */
     HEclear();
 
+    /* the member count is a 16-bit field of the Vgroup record: refuse the 65536th member */
+    if (vg->nvelt >= UINT16_MAX)
+        HGOTO_ERROR(DFE_EXCEEDMAX, FAIL);
+
     if ((int)vg->nvelt >= vg->msize) {
         vg->msize *= 2;
 
